@@ -180,6 +180,68 @@ def ancestors(cls, bases):
     return out
 
 
+def close_start_packet_guarded(conn):
+    """datagrams_to_send, close path: is the `builder.start_packet(...)` call inside the
+    `try … except QuicPacketBuilderStop` that guards `_write_connection_close_frame`?"""
+    fn = find_method(conn, "QuicConnection", "datagrams_to_send")
+    found = None
+    for n in ast.walk(fn):
+        if isinstance(n, ast.Try) and n.handlers and guarded_call(n) == "_write_connection_close_frame":
+            names = [getattr(c.func, "attr", "") for st in n.body for c in ast.walk(st) if isinstance(c, ast.Call)]
+            found = "start_packet" in names
+    if found is None:
+        raise ExtractError("datagrams_to_send: no try around _write_connection_close_frame")
+    # every start_packet call of the function must be inside some try that catches the stop
+    guarded_ids = set()
+    for n in ast.walk(fn):
+        if isinstance(n, ast.Try) and any("QuicPacketBuilderStop" in exc_names(h.type) for h in n.handlers):
+            for st in n.body:
+                for c in ast.walk(st):
+                    guarded_ids.add(id(c))
+    for c in ast.walk(fn):
+        if isinstance(c, ast.Call) and getattr(c.func, "attr", "") == "start_packet" and id(c) not in guarded_ids:
+            found = False
+    return found
+
+
+def alpn_lookup_guarded(conn):
+    """`_alpn_handler` (TLS callback, runs inside receive_datagram): every subscript of
+    `self._cryptos_initial[...]` — a dict keyed by configuration.supported_versions — sits under an
+    `if`/`elif` whose test contains `<x> in self._configuration.supported_versions`"""
+    fn = find_method(conn, "QuicConnection", "_alpn_handler")
+
+    def tests_membership(test):
+        for n in ast.walk(test):
+            if isinstance(n, ast.Compare) and any(isinstance(o, ast.In) for o in n.ops):
+                if any(isinstance(c, ast.Attribute) and c.attr == "supported_versions" for c in n.comparators):
+                    return True
+        return False
+
+    ok = True
+    seen = False
+
+    def walk(stmts, guarded):
+        nonlocal ok, seen
+        for st in stmts:
+            if isinstance(st, ast.If):
+                walk(st.body, guarded or tests_membership(st.test))
+                walk(st.orelse, guarded)
+            elif isinstance(st, (ast.For, ast.While, ast.With, ast.Try)):
+                walk(st.body, guarded)
+                walk(getattr(st, "orelse", []), guarded)
+            else:
+                for n in ast.walk(st):
+                    if isinstance(n, ast.Subscript) and isinstance(n.value, ast.Attribute) \
+                            and n.value.attr == "_cryptos_initial":
+                        seen = True
+                        if not guarded:
+                            ok = False
+    walk(fn.body, False)
+    if not seen:
+        raise ExtractError("_alpn_handler: no _cryptos_initial lookup")
+    return ok
+
+
 def change_cid_raises(conn):
     """what `change_connection_id()` — called by receive_datagram's migration block — can raise,
     by situation: "empty" (no spare peer CID), "available", "always".  A `raise` (or the unguarded
@@ -308,6 +370,14 @@ def generate(repo):
     L.append("def ancestors : List (String × List String) := [")
     L.append(",\n".join('  ("%s", [%s])' % (c, ", ".join('"%s"' % a for a in ancestors(c, bases))) for c in classes))
     L.append("]")
+    L.append("")
+    L.append("/-- `_alpn_handler`: the `_cryptos_initial[version]` lookup is guarded by")
+    L.append("    `version in self._configuration.supported_versions` -/")
+    L.append("def alpnLookupGuarded : Bool := %s" % ("true" if alpn_lookup_guarded(conn) else "false"))
+    L.append("")
+    L.append("/-- `datagrams_to_send`, close path: `builder.start_packet(...)` is inside the try that catches")
+    L.append("    QuicPacketBuilderStop -/")
+    L.append("def closeStartPacketGuarded : Bool := %s" % ("true" if close_start_packet_guarded(conn) else "false"))
     L.append("")
     L.append("/-- `change_connection_id()` (called by the migration block of receive_datagram): the")
     L.append("    exceptions it raises, by situation \"empty\" / \"available\" / \"always\" -/")
